@@ -55,8 +55,13 @@ pub struct Binder<'a> {
     aliases: HashMap<String, Expr>,
     /// Table aliases in scope
     table_aliases: HashMap<String, String>,
-    /// CTE definitions (WITH clauses)
-    ctes: HashMap<String, Arc<LogicalPlan>>,
+    /// CTE definitions (WITH clauses) in scope: name -> (identity, plan). The
+    /// identity becomes `SubqueryAliasNode::cte_name`, which the physical
+    /// planner uses to materialise a shared CTE once - so it must differ
+    /// between two WITH definitions that merely reuse a name.
+    ctes: HashMap<String, (String, Arc<LogicalPlan>)>,
+    /// How many WITH definitions of each name this statement has had so far.
+    cte_defs: HashMap<String, usize>,
     /// Outer scope columns for correlated subqueries (name -> (type, relation))
     #[allow(dead_code)] // Reserved for correlated subquery type checking
     outer_scope: HashMap<String, (ArrowDataType, Option<String>)>,
@@ -129,6 +134,7 @@ impl<'a> Binder<'a> {
             aliases: HashMap::new(),
             table_aliases: HashMap::new(),
             ctes: HashMap::new(),
+            cte_defs: HashMap::new(),
             outer_scope: HashMap::new(),
             named_windows: HashMap::new(),
             allow_window: false,
@@ -140,13 +146,14 @@ impl<'a> Binder<'a> {
     fn with_outer_scope(
         catalog: &'a dyn Catalog,
         outer_scope: HashMap<String, (ArrowDataType, Option<String>)>,
-        ctes: HashMap<String, Arc<LogicalPlan>>,
+        ctes: HashMap<String, (String, Arc<LogicalPlan>)>,
     ) -> Self {
         Self {
             catalog,
             aliases: HashMap::new(),
             table_aliases: HashMap::new(),
             ctes,
+            cte_defs: HashMap::new(),
             outer_scope,
             named_windows: HashMap::new(),
             allow_window: false,
@@ -186,6 +193,18 @@ impl<'a> Binder<'a> {
     }
 
     fn bind_query(&mut self, query: &ast::Query) -> Result<LogicalPlan> {
+        // WITH names are visible only inside the query that declares them: an
+        // inner WITH must neither leak out nor keep shadowing an outer CTE of
+        // the same name once its query ends.
+        let saved_ctes = query.with.as_ref().map(|_| self.ctes.clone());
+        let plan = self.bind_query_in_scope(query);
+        if let Some(saved) = saved_ctes {
+            self.ctes = saved;
+        }
+        plan
+    }
+
+    fn bind_query_in_scope(&mut self, query: &ast::Query) -> Result<LogicalPlan> {
         // Process CTEs (WITH clause) first
         if let Some(ref with_clause) = query.with {
             self.bind_ctes(with_clause)?;
@@ -302,8 +321,15 @@ impl<'a> Binder<'a> {
             let alias_name = cte.alias.name.value.clone();
             let cte_plan = self.bind_query(&cte.query)?;
 
-            // Store the CTE with its alias
-            self.ctes.insert(alias_name.clone(), Arc::new(cte_plan));
+            // Store the CTE with its alias. The first definition of a name is
+            // identified by the name itself, a later one by `name#n`.
+            let n = self.cte_defs.entry(alias_name.clone()).or_insert(0);
+            *n += 1;
+            let id = match *n {
+                1 => alias_name.clone(),
+                n => format!("{alias_name}#{n}"),
+            };
+            self.ctes.insert(alias_name, (id, Arc::new(cte_plan)));
         }
         Ok(())
     }
@@ -1115,7 +1141,7 @@ impl<'a> Binder<'a> {
                     .insert(alias_name.clone(), table_name.clone());
 
                 // Check if this is a CTE reference first
-                if let Some(cte_plan) = self.ctes.get(&table_name) {
+                if let Some((cte_id, cte_plan)) = self.ctes.get(&table_name) {
                     // CTEs are full logical plans, clone and apply alias
                     let schema = cte_plan.schema();
                     let aliased_schema = PlanSchema::new(
@@ -1130,7 +1156,7 @@ impl<'a> Binder<'a> {
                         input: Arc::clone(cte_plan),
                         alias: alias_name.clone(),
                         schema: aliased_schema,
-                        cte_name: Some(table_name.clone()),
+                        cte_name: Some(cte_id.clone()),
                     }));
                 }
 
